@@ -3,5 +3,6 @@ CONSTANT Depth = 4
 CONSTANT DcShift = "4294966294"
 CONSTANT Hook = FALSE
 CONSTANT Side = "client"
+CONSTANT Mms = 0
 INVARIANT Emit
 CHECK_DEADLOCK FALSE
